@@ -169,8 +169,12 @@ class GarbageCollector:
 
         try:
             markers = self.storage.list_files(INFLIGHT_PATH)
-        except Exception:
-            markers = []
+        except Exception as e:
+            # Fail closed: without the marker listing every in-flight file
+            # would lose its protection and could be deleted.
+            raise GarbageCollectionAborted(
+                f"Aborting GC: cannot list in-flight markers under {INFLIGHT_PATH}: {e}"
+            ) from e
 
         for marker_path in markers:
             norm_marker = self._normalize_path(marker_path)
@@ -211,7 +215,15 @@ class GarbageCollector:
         """
         fallback = f"data/{basename[: -len('.inflight')]}"
         try:
-            payload = json.loads(self.storage.read_file(marker_path).decode("utf-8"))
+            raw = self.storage.read_file(marker_path)
+        except Exception as e:
+            # An unreadable marker names an unknown file (possibly a manifest):
+            # guessing the legacy target would un-protect it. Fail closed.
+            raise GarbageCollectionAborted(
+                f"Aborting GC: cannot read in-flight marker {marker_path}: {e}"
+            ) from e
+        try:
+            payload = json.loads(raw.decode("utf-8"))
             target = payload.get("file_path")
         except Exception:
             return fallback
